@@ -109,6 +109,10 @@ def generate(rng: Prng, tier: str) -> dict:
             k = w.randint(1, n_roots)
             ops.append({"op": "pops", "roots": w.sample(list(range(n_roots)), k), "slash": [w.chance(0.15) for _ in range(k)],
                         "intersect": not w.chance(0.25)})
+            if ops[-1]["intersect"] is False and w.chance(0.6):
+                # rows matched by index are usually consumed by iterating to the end: the longer members must not be
+                # asked for an element beyond the shortest length
+                ops.append({"op": "iter", "h": -1, "m": None})
         elif kind == "topop":
             ops.append({"op": "topop", "h": h})
         elif kind == "chain":
